@@ -46,9 +46,30 @@ import sys, os, json, types
 repo = sys.argv[1]
 sys.path[0] = repo
 MODS = ("cspuz_core", "enigma_csp", "pycsugar", "z3")
+_planted = {}
 def plant(avail):
-    for name, ok in zip(MODS, avail):
-        sys.modules[name] = types.ModuleType(name) if ok else None
+    """Availability is emulated with real files: an importable module is an (empty) file in a scratch directory on
+    sys.path, an unavailable one is nowhere (site-packages is taken off sys.path, so an installed z3 does not count),
+    and a "broken" one is a file whose import raises ImportError (present but not importable)."""
+    import importlib, tempfile
+    key = json.dumps(avail)
+    if _planted.get("key") != key:
+        d = tempfile.mkdtemp(prefix="c20mods_")
+        for name, ok in zip(MODS, avail):
+            if ok is True:
+                open(os.path.join(d, name + ".py"), "w").write("")
+            elif ok == "broken":
+                open(os.path.join(d, name + ".py"), "w").write("raise ImportError('present but broken')\n")
+        sys.path[:] = [repo, d] + [p for p in sys.path if p not in (repo, _planted.get("dir"))
+                                   and "site-packages" not in p and "dist-packages" not in p and p != ""]
+        if _planted.get("dir"):
+            import shutil; shutil.rmtree(_planted["dir"], ignore_errors=True)
+        _planted["key"], _planted["dir"] = key, d
+        import atexit, shutil
+        atexit.register(lambda d=d: shutil.rmtree(d, ignore_errors=True))
+    for name in MODS:
+        sys.modules.pop(name, None)
+    importlib.invalidate_caches()
 def setenv(env):
     for k in list(os.environ):
         if k.startswith("CSPUZ_"):
@@ -122,6 +143,15 @@ def batch(jobs_by_avail):
 
 def fresh(av, env):
     return _run_worker({"mode": "fresh", "avail": list(av), "env": env})
+
+
+# "present but not importable" (the module is found on the path, importing it raises ImportError): counts as NOT importable
+BROKEN_AVAILS = [("broken", False, False, True), (False, "broken", True, True), (False, False, "broken", True),
+                 (False, False, False, "broken"), ("broken", "broken", "broken", "broken"), ("broken", True, False, False)]
+
+
+def as_bool_avail(av):
+    return tuple(x is True for x in av)
 
 
 FULL_BACKEND_AVAILS = [(True, True, True, True), (False, False, False, False), (False, False, True, True),
@@ -732,14 +762,18 @@ def correspond(ctx):
         av = rng.choice(AVAILS)
         env = _env(rng.choice(BACKEND_ENV), rng.choice([None, "/p"]), rng.choice(FLAG_ENV), rng.choice(FLAG_ENV))
         sample.append((av, env))
+    for av in BROKEN_AVAILS:
+        sample.append((av, _env(rng.choice([None, "auto"]), None, rng.choice(FLAG_ENV), None)))
     with ThreadPoolExecutor(max_workers=8) as ex:
         fres = list(ex.map(lambda t: fresh(*t), sample))
-    outs = drv.run([_cfg_line("c20_init", {"infer": True, "env": env}, av) for av, env in sample])
+    outs = drv.run([_cfg_line("c20_init", {"infer": True, "env": env}, as_bool_avail(av)) for av, env in sample])
     for (av, env), r, o in zip(sample, fres, outs):
         real = _cfg_canon_real(r)
         model = _cfg_canon_model(o)
         ctx.count("fresh-import:" + real[0])
         ctx.case({"fresh import": True, "avail": dict(zip(MODS, av)), "env": env, "real": real}, None)
+        if any(x == "broken" for x in av):
+            ctx.count("fresh-import:present-but-broken-module")
         if real != model:
             ctx.disagree("config-fresh", avail=list(av), env=env, real=real, model=model)
         if "ok" in r and not r.get("same", False):
@@ -852,9 +886,10 @@ def search(ctx, why, quick=False):
     # fresh import on a few
     for av, env in [((False, False, True, True), _env(None, None, None, None)),
                     ((True, True, True, True), _env("auto", None, "0", None)),
-                    ((False, False, False, False), _env("csugar", "/p", None, "yes"))]:
+                    ((False, False, False, False), _env("csugar", "/p", None, "yes"))] + \
+            [(av, _env(b, None, None, None)) for av in BROKEN_AVAILS for b in (None, "auto")]:
         got = _cfg_canon_real(fresh(av, env))
-        want = oracle_config(av, env, True)
+        want = oracle_config(as_bool_avail(av), env, True)
         if got != want:
             add("config:import-time", f"importing cspuz with importable={dict(zip(MODS, av))} env={env}: cspuz.config is {got}, "
                 f"expected {want}", {"kind": "fresh", "avail": list(av), "env": env, "got": got, "want": want})
